@@ -23,6 +23,7 @@ import (
 	"go.minekube.com/gate/pkg/edition/java/proto/state"
 	"go.minekube.com/gate/pkg/edition/java/proto/util"
 	"go.minekube.com/gate/pkg/gate/proto"
+	"go.minekube.com/gate/pkg/internal/verifhook"
 	"go.minekube.com/gate/pkg/util/errs"
 	"go.minekube.com/gate/pkg/util/netutil"
 	"golang.org/x/sync/singleflight"
@@ -489,9 +490,11 @@ func (c *pingStatusCache) load(key pingKey, ttl time.Duration, load func() *ping
 		return result
 	}
 	c.mu.Unlock()
+	verifhook.Point("pc.miss", "gen", generation)
 
 	flightKey := fmt.Sprintf("%d:%d:%s:%d", generation, key.routeGeneration, key.backendAddr, key.protocol)
 	result := <-c.group.DoChan(flightKey, func() (any, error) {
+		verifhook.Point("pc.flight.enter", "gen", generation)
 		c.mu.Lock()
 		if generation == c.generation {
 			if cached := c.getLocked(key); cached != nil {
@@ -500,12 +503,15 @@ func (c *pingStatusCache) load(key pingKey, ttl time.Duration, load func() *ping
 			}
 		}
 		c.mu.Unlock()
+		verifhook.Point("pc.flight.fetch", "gen", generation)
 
 		loaded := load()
+		verifhook.Point("pc.flight.loaded", "gen", generation)
 		c.mu.Lock()
 		if generation == c.generation {
 			c.cache.Set(key, loaded, ttl)
 		}
+		verifhook.Event("pc.store", "gen", generation, "stored", generation == c.generation)
 		c.mu.Unlock()
 		return loaded, nil
 	})
@@ -516,6 +522,7 @@ func (c *pingStatusCache) reset() {
 	c.mu.Lock()
 	c.generation++
 	c.cache.DeleteAll()
+	verifhook.Event("pc.reset", "gen", c.generation)
 	c.mu.Unlock()
 }
 
